@@ -293,6 +293,9 @@ def main(run: Run):
             run.violation(f"{W.key(cfg)}/{vkind}", f"{W.key(cfg)}: {r['what'][:400]} trace={trace}",
                           {"cfg": cfg, "kind": vkind, "events": trace, "cohdl_source": W.render(cfg),
                            "generator": "c15_wrappers"})
+    if run.counters.get("rejected_other", 0):
+        run.tool_error(f"{run.counters['rejected_other']} configuration(s) that cohdl is expected to accept were rejected "
+                       f"(see notes in the evidence; e.g. /repo modified while the check was running?)")
     if explored < 20 or explored * 2 < len(cfgs) - run.counters.get("rejected_single_context_delayed", 0):
         run.tool_error(f"vacuous: only {explored} of {len(cfgs)} configurations were explored")
     if not run.violations and not run.known_hits:
